@@ -28,12 +28,18 @@ import (
 	"verif/core"
 )
 
-const verifRoot = "/verif"
+// verifRoot is the directory that holds check, harness/, evidence/ (VERIF_ROOT is set by ./check).
+var verifRoot = func() string {
+	if r := os.Getenv("VERIF_ROOT"); r != "" {
+		return r
+	}
+	return "/verif"
+}()
 
 var goEnv = []string{"GOFLAGS=-mod=mod", "GOPROXY=off", "GOSUMDB=off", "GOTOOLCHAIN=local"}
 
 type runCtx struct {
-	buildDur time.Duration
+	buildDur   time.Duration
 	prop, tier string
 	seed       int64
 	work       string
@@ -612,19 +618,19 @@ func (rc *runCtx) conclude(spec propSpec, outs []*childOut, writeEvidence bool) 
 		}
 	}
 	cov := map[string]any{
-		"evaluations":            evals,
-		"distinct_nontrivial":    distinct,
-		"rule":                   spec.Rule + " || " + strings.Join(rules, " | "),
-		"samples":                samples,
-		"exhaustive":             anyExh && exhaustive,
-		"events":                 counters,
+		"evaluations":             evals,
+		"distinct_nontrivial":     distinct,
+		"rule":                    spec.Rule + " || " + strings.Join(rules, " | "),
+		"samples":                 samples,
+		"exhaustive":              anyExh && exhaustive,
+		"events":                  counters,
 		"class_histogram_first60": hist,
-		"inconclusive":           inconcl,
-		"sanitizer_reports":      sanCount,
-		"known_findings_matched": knownMatched,
-		"per_part":               perPart,
-		"notes":                  notes,
-		"verdict":                map[int]string{0: "held on what was observed", 1: "violated", 2: "inconclusive"}[code],
+		"inconclusive":            inconcl,
+		"sanitizer_reports":       sanCount,
+		"known_findings_matched":  knownMatched,
+		"per_part":                perPart,
+		"notes":                   notes,
+		"verdict":                 map[int]string{0: "held on what was observed", 1: "violated", 2: "inconclusive"}[code],
 	}
 	ev := map[string]any{
 		"property_id": rc.prop,
